@@ -418,7 +418,19 @@ func c19Strata() []*gast.Grammar {
 	mk := func(rules ...*gast.Rule) *gast.Grammar { return &gast.Grammar{Rules: rules} }
 	r := func(n string, e *gast.Expr) *gast.Rule { return &gast.Rule{Name: n, Expr: e} }
 	lab := func(n, lit string) *gast.Expr { return gast.Lab(n, gast.L(lit)) }
+	// a large grammar (more than 256 rules): chains of rule references three links deep, every link a
+	// choice of one-character literals, classes and the next link (what the optimizer merges step by step)
+	var bigRules []*gast.Rule
+	var tops []*gast.Expr
+	for i := 0; i < 90; i++ {
+		a, b, cc := fmt.Sprintf("La%d", i), fmt.Sprintf("Lb%d", i), fmt.Sprintf("Lc%d", i)
+		tops = append(tops, gast.Ref(a))
+		bigRules = append(bigRules, r(a, gast.C(gast.L(string(rune('a'+i%20))), gast.Ref(b))), r(b, gast.C(gast.Cl(gast.Chars(string(rune('b'+i%20))+"_")), gast.Ref(cc), gast.L("-"))),
+			r(cc, gast.C(gast.L(string(rune('c'+i%20))), gast.L("d"), gast.Cl(gast.Chars("xy")))))
+	}
+	big := mk(append([]*gast.Rule{r("S", gast.Star(gast.C(tops...)))}, bigRules...)...)
 	return []*gast.Grammar{
+		big,
 		// a label bound twice in one scope next to other labels: written like that, and produced by
 		// -optimize-grammar when it inlines an unlabelled leaf rule whose sequence binds a label the host
 		// binds too (the emitted code need not compile - known finding F07 - but it is the same every time)
